@@ -85,3 +85,14 @@ Theorem c14_code_add_action_detail : forall m rho dl n q,
     rho' "detail->detail_length" = dl + n.
 Proof. exact code_add_action_detail. Qed.
 Print Assumptions c14_code_add_action_detail.
+
+(* libwifi_free_action_detail releases the block exactly when a length is recorded, and then records none *)
+Theorem c14_code_free_action_detail : forall m rho dl,
+  0 <= dl < 256 ->
+  let rho0 := upd rho "detail->detail_length" dl in
+  if (dl =? 0)%Z then observe (exec 20 m rho0 [] body_libwifi_free_action_detail) = Some (None, [])
+  else exists rho', exec 20 m rho0 [] body_libwifi_free_action_detail = Fell rho' [("free", [wrap u64 (rho "detail->detail")])] /\
+       rho' "detail->detail_length" = 0.
+Proof. exact code_free_action_detail. Qed.
+Print Assumptions c14_code_free_action_detail.
+
